@@ -454,6 +454,24 @@ theorem src_cells_unchanged (env : Env) (r : Bool) (fuel : Nat) (plan : Arg) (ro
 example : NoMut (.call b!"get" [.path ⟨false, [.child b!"src"]⟩]) :=
   .call _ _ (by decide) (by intro a ha; simp at ha; subst ha; exact .path _)
 
+/-- the mutators are local: `set`/`setall`/`del`/`delall` at a simple path change at most ONE cell that
+existed before (the container their path leads to); whatever else they write is new. With `get_spec …
+del_spec` this is all a mutator does to the data. -/
+theorem mutator_one_cell (value : Option Val) (p : Path) (data at_ : Val) (h : Heap) :
+    ∃ a, ∀ i, i < h.length → i ≠ a → (Spec.setOrDel value p data at_ h).2[i]? = h[i]? := by
+  unfold Spec.setOrDel
+  by_cases hf : p.frags.isEmpty = true
+  · exact ⟨0, by simp [hf]⟩
+  · obtain ⟨a, ha⟩ := pathSet_one_cell value p.frags data h
+    refine ⟨a, ?_⟩
+    intro i hi hne
+    simp only [hf]
+    cases hps : pathSet value data p.frags h with
+    | mk r h' =>
+      have := ha i hi hne
+      rw [hps] at this
+      cases r <;> simpa using this
+
 /-- the hypothesis is needed, and the mutation may reach `$.src` through another name: after
 `[set $.asm $.src]` the plan `[set $.asm.a 9]` changes `$.src.a` (the two names denote one map) -/
 theorem set_through_alias :
